@@ -118,11 +118,17 @@ inline bool operator==(const Tok& x, const Tok& y) { return x.v == y.v; }
 inline bool operator!=(const Tok& x, const Tok& y) { return !(x == y); }
 template <> Tok mk<Tok>(int i) { return Tok(i * 31 + 5); }
 
+// an object between two runs of known bytes: the containers never write outside themselves
+template <typename A> struct Guarded { uint8_t pre[16]; A obj; uint8_t post[16];
+	Guarded() : obj() { memset(pre, 0xE7, sizeof pre); memset(post, 0xE7, sizeof post); }
+	explicit Guarded(const A& o) : obj(o) { memset(pre, 0xE7, sizeof pre); memset(post, 0xE7, sizeof post); }
+	bool intact() const { for (int i = 0; i < 16; ++i) if (pre[i] != 0xE7 || post[i] != 0xE7) return false; return true; } };
+
 template <typename T, int C> struct SA {
 	static void run(const char* tname) {
 		using A = StaticArrayT<T, C>;
 		char rp[64]; snprintf(rp, sizeof rp, "static-array:%s,C=%d", tname, C);
-		A a; T model[C];
+		Guarded<A> ga; A& a = ga.obj; T model[C];
 		if (a.count() != C) violation("static-count", rp, "count()=%d", static_cast<int>(a.count()));
 		for (int i = 0; i < C; ++i) { a[i] = mk<T>(i); model[i] = mk<T>(i); }
 		++me().states;
@@ -132,6 +138,7 @@ template <typename T, int C> struct SA {
 		{ A b = a; b.fill(mk<T>(77)); ++me().cases; for (int j = 0; j < C; ++j) if (b[j] != mk<T>(77)) { violation("static-fill", rp, "fill() left element %d", j); break; } }
 		{ A b = a; b.clear(); ++me().cases; const T f = filler<T>(); for (int j = 0; j < C; ++j) if (b[j] != f) { violation("static-clear", rp, "clear() left element %d", j); break; } if (!b.empty()) violation("static-empty", rp, "empty() false after clear()"); }
 		{ const A& ca = a; for (int j = 0; j < C; ++j) if (ca[j] != model[j]) { violation("static-const-index", rp, "const a[%d]", j); break; } }
+		{ Guarded<A> gb(a); gb.obj.fill(mk<T>(9)); gb.obj.clear(); if (!gb.intact() || !ga.intact()) violation("static-wrote-outside", rp, "fill()/clear()/stores wrote outside the array"); }
 		{ A b(mk<T>(5)); ++me().cases; for (int j = 0; j < C; ++j) if (b[j] != mk<T>(5)) { violation("static-filler-ctor", rp, "filler constructor left element %d", j); break; } }
 #ifdef VX_STATIC_ARRAY_ITER
 		{ int n = 0; bool ok = true; for (auto it = a.begin(); it != a.end(); ++it, ++n) { if (n >= C || *it != model[n]) { ok = false; break; } } ++me().cases; if (!ok || n != C) violation("static-iteration", rp, "iteration visited %d elements of %d / wrong order", n, C);
@@ -151,7 +158,7 @@ template <typename T, int C> struct DA {
 	static void run(const char* tname) {
 		using A = DynamicArrayT<T, C>;
 		char rp[64]; snprintf(rp, sizeof rp, "dynamic-array:%s,C=%d", tname, C);
-		A a; ++me().states;
+		Guarded<A> ga; A& a = ga.obj; ++me().states;
 		if (a.count() != 0 || !a.empty()) violation("dynamic-initial", rp, "fresh array not empty");
 		for (int i = 0; i < C; ++i) {
 			const T v = mk<T>(i);
@@ -180,7 +187,9 @@ template <typename T, int C> struct DA {
 			if (C > 3) { b.emplace(b[0]); if (b[0] != mk<T>(1) || b[3] != mk<T>(1)) violation("dynamic-emplace-consumed-element", rp, "emplace(a[0]) changed a[0] or stored something else"); }
 			if (C > 4) { StaticArrayT<T, 2> fixed; fixed[0] = mk<T>(8); fixed[1] = mk<T>(9); b.emplace(fixed[1]); if (fixed[1] != mk<T>(9) || b[4] != mk<T>(9)) violation("dynamic-emplace-consumed-element", rp, "emplace(fixed[1]) changed the source element"); }
 			if (b[0] != mk<T>(1) || (C > 1 && b[1] != mk<T>(2)) || (C > 2 && b[2] != mk<T>(1))) violation("dynamic-emplace-value", rp, "inserted copies differ from their sources"); }
-		{ A b = a; b.clear(); ++me().cases; if (b.count() != 0 || !b.empty()) violation("dynamic-clear", rp, "not empty after clear()"); int n = 0; for (auto it = b.begin(); it != b.end(); ++it) ++n; if (n) violation("dynamic-clear-iteration", rp, "iteration after clear() visited %d", n);
+		{ Guarded<A> gb(a); Guarded<A> neighbour(a); A& b = gb.obj; b.clear(); ++me().cases; if (b.count() != 0 || !b.empty()) violation("dynamic-clear", rp, "not empty after clear()"); int n = 0; for (auto it = b.begin(); it != b.end(); ++it) ++n; if (n) violation("dynamic-clear-iteration", rp, "iteration after clear() visited %d", n);
+		  if (!gb.intact() || !neighbour.intact() || neighbour.obj.count() != C) violation("dynamic-clear-wrote-outside", rp, "clear() of a full array wrote outside the array (guard bytes or a neighbouring array changed)");
+		  { Guarded<A> gh; A& hb = gh.obj; for (int i = 0; i < C / 2; ++i) hb.emplace(mk<T>(i)); hb.clear(); if (!gh.intact()) violation("dynamic-clear-wrote-outside", rp, "clear() of a half-full array wrote outside the array"); }
 		  // refill after clear: capacity fully available again
 		  for (int i = 0; i < C; ++i) b.emplace(mk<T>(i + 1)); if (b.count() != C || b[C - 1] != mk<T>(C)) violation("dynamic-refill", rp, "refill after clear()"); }
 		{ // appending another array
@@ -189,6 +198,7 @@ template <typename T, int C> struct DA {
 			bool ok = b.count() == C; for (int i = 0; ok && i < C / 2; ++i) ok = b[i] == mk<T>(i); for (int i = 0; ok && i < (C + 1) / 2; ++i) ok = b[C / 2 + i] == mk<T>(i + 50);
 			if (!ok) violation("dynamic-append-array", rp, "operator+=(array)");
 		}
+		if (!ga.intact()) violation("dynamic-wrote-outside", rp, "filling the array to capacity wrote outside it");
 	}
 };
 template <int C> struct ArrAll { static void run(int w, int W) {
